@@ -75,6 +75,14 @@ def cb_corpus():
               "vars": [var("S", [A("regex", "s+", cbk="unit_skip", cb="crate::cb::named::emit")]),
                        var("F", [A("regex", "f+", cbk="unit_unit", cb="crate::cb::named::filter")]),
                        var("O", [A("regex", "o+", cbk="val_opt", cb="crate::cb::valued::error")], "u32")]})
+    # bump inside the callback, then every kind of decision (emit, Err(default) through the error callback, Err(e), skip),
+    # also from the callback of a skip pattern; str and bytes
+    D.append({"id": "cb13", "utf8": True, "logos": E2, "tags": ["role:cb"], "subs": [], "skips": [A("skip", "_", cbk="skipcb_bump")],
+              "vars": [var("S", [A("regex", "s+", cbk="bump_skip")]), var("B", [A("regex", "b+", cbk="bump_bool")]),
+                       var("R", [A("regex", "r+", cbk="bump_res")], "u32"), var("F", [A("regex", "f+", cbk="bump_filter")])]})
+    D.append({"id": "cb14", "utf8": False, "logos": E1, "tags": ["role:cb"], "subs": [], "skips": [A("skip", list(b"_+"), cbk="skipcb_bump")],
+              "vars": [var("S", [A("regex", list(b"s"), cbk="bump_skip")]), var("B", [A("regex", list(b"b+"), cbk="bump_bool")]),
+                       var("R", [A("regex", list(rb"[r\xfe]+"), cbk="bump_res")], "u32")]})
     return D
 
 
@@ -127,7 +135,7 @@ def cb_run(tier, seed, cfgs):
     p = os.path.join(capdir, "defs_cb_%s.ndjson" % key)
     with open(p, "w") as f:
         f.write(blob)
-    res = run_tlc("Callbacks.tla", "Callbacks.cfg", {"DEFS": p, "MAXLEN": str(maxlen)}, workers=8, metaname="cb", xss="512m", timeout=6000)
+    res = run_tlc("Callbacks.tla", "Callbacks.cfg", {"DEFS": p, "MAXLEN": str(maxlen), "PMAX": str(maxlen - 1 if tier == "quick" else maxlen)}, workers=8, metaname="cb", xss="512m", timeout=6000)
     if not res["ok"]:
         raise ToolError("Callbacks.tla: SkipTransparent violated at specification level:\n" + res["out"][-3000:])
     runs = [r[2] for r in tlc_records(res) if r[0] == "CBRUN"]
@@ -144,7 +152,7 @@ def cb_run(tier, seed, cfgs):
     for td, m in zip(tla_defs, metas):
         if m["panic"] or not td.get("chars"):
             continue
-        want = {v["name"] for v in m["def"]["vars"] if v["attrs"] and not any(a.get("cbk") in ("unit_skip", "unit_res_skip", "unit_bool_and") for a in v["attrs"])}
+        want = {v["name"] for v in m["def"]["vars"] if v["attrs"] and not any(a.get("cbk") in ("unit_skip", "unit_res_skip", "unit_bool_and", "bump_skip") for a in v["attrs"])}
         missing = want - seen_names.get(td["idx"], set())
         if missing:
             raise ToolError("Callbacks.tla: no enumerated behaviour of %s ever emits %s (alphabet %s)" % (m["id"], sorted(missing), td["chars"]))
@@ -153,7 +161,7 @@ def cb_run(tier, seed, cfgs):
         data = []
         for c in r["chars"]:
             data.extend(char_bytes[r["d"]][c - 1])
-        reqs.append(("%d f %s" % (r["d"], bytes(data).hex()), r, bytes(data).hex()))
+        reqs.append(("%d %s %s" % (r["d"], "p" if r.get("partial") else "f", bytes(data).hex()), r, bytes(data).hex()))
     findings = list(panic_findings)
     for c in cfgs:
         reps = run_subject(bins[c], [q[0] for q in reqs], timeout=1800)
@@ -176,8 +184,8 @@ def cb_run(tier, seed, cfgs):
                     elif any(not x[2] for x in rep.get("cbs", [])):
                         why = "a callback observed slice() != source[span()]"
             if why:
-                findings.append({"def": m["id"], "cfg": c, "input": hexd, "why": why, "expected": r["items"], "got": rep.get("items"), "src": m["src"]})
-    samples = [{"def": meta_by_idx[r["d"]]["id"], "input_hex": h, "expected_items": r["items"], "expected_callback_invocations": r["log"]} for (l, r, h) in reqs[:: max(1, len(reqs) // 5)][:5]]
+                findings.append({"def": m["id"], "cfg": c, "input": hexd + (":p" if r.get("partial") else ""), "why": why + (" (partial lexer)" if r.get("partial") else ""), "expected": r["items"], "got": rep.get("items"), "src": m["src"]})
+    samples = [{"def": meta_by_idx[r["d"]]["id"], "input_hex": h, "partial": r.get("partial", False), "expected_items": r["items"], "expected_callback_invocations": r["log"]} for (l, r, h) in reqs[:: max(1, len(reqs) // 5)][:5]]
     out = {"tlc": {k: res[k] for k in ("states", "distinct", "wall")}, "behaviours": len(runs), "runs": len(runs) * len(cfgs), "cfgs": cfgs, "maxlen": maxlen,
            "findings": findings[:2000], "n_findings": len(findings), "samples": samples, "wall": time.time() - t0, "defs": len(metas)}
     with open(cache, "w") as f:
